@@ -424,7 +424,8 @@ theorem find?_unique {α : Type} (p : α → Bool) (l : List α) (e : α) (he : 
   | cons x l ih =>
     by_cases hx : p x = true
     · have : x = e := hu x (by simp) hx
-      simp [List.find?_cons, hx, this]
+      subst this
+      simp [List.find?_cons, hx]
     · have hne : x ≠ e := fun h => hx (h ▸ hp)
       have he' : e ∈ l := by
         rcases List.mem_cons.mp he with h | h
